@@ -632,28 +632,44 @@ def apalache(module_rel, inv, init=None, next=None, cinit=None, length=1, timeou
     return r
 
 
-def tlapm(module_rel, timeout=900, threads=4, cleanfp=True, tag=None):
-    """Checks every proof of a module with tlapm (all back ends the proofs name).  Returns a dict with
-    result = "ok" (all obligations proved) or "failed" (some obligation not proved; `failed`, `obligations`,
-    `failed_at` = source positions), wall_s, out.  Raises ToolError on timeouts and when tlapm did not get as
-    far as counting obligations (parse errors, crashes)."""
-    name = os.path.splitext(os.path.basename(module_rel))[0]
-    stage = stage_spec(module_rel, workdir("tlaps", tag or name))
-    cmd = ["tlapm", "--threads", str(threads)] + (["--cleanfp"] if cleanfp else []) + [name + ".tla"]
-    t0 = time.time()
+def _tlapm_once(stage, name, threads, cleanfp, stretch, timeout):
+    cmd = ["tlapm", "--threads", str(threads), "--stretch", str(stretch)] + (["--cleanfp"] if cleanfp else []) + [name + ".tla"]
     try:
         p = subprocess.run(cmd, cwd=stage, stdout=subprocess.PIPE, stderr=subprocess.STDOUT, text=True, timeout=timeout)
     except subprocess.TimeoutExpired:
         raise ToolError("tlapm timeout on %s after %ss" % (name, timeout))
-    out = p.stdout
+    return cmd, p
+
+
+def tlapm(module_rel, timeout=900, threads=4, cleanfp=True, tag=None, stretch=2, retries=2):
+    """Checks every proof of a module with tlapm (all back ends the proofs name).  Returns a dict with
+    result = "ok" (all obligations proved) or "failed" (some obligation not proved; `failed`, `obligations`,
+    `failed_at` = source positions), wall_s, out.  Raises ToolError on timeouts and when tlapm did not get as
+    far as counting obligations (parse errors, crashes).  Back-end timeouts are per obligation and wall-clock:
+    on a loaded machine a true obligation can time out, so a failed run is repeated up to `retries` times with
+    the fingerprints of the proved obligations kept and the time limits doubled (pass retries=0 for modules
+    that are expected to fail)."""
+    name = os.path.splitext(os.path.basename(module_rel))[0]
+    stage = stage_spec(module_rel, workdir("tlaps", tag or name))
+    t0 = time.time()
+    attempt = 0
+    while True:
+        cmd, p = _tlapm_once(stage, name, threads, cleanfp and attempt == 0, stretch * (2 ** attempt),
+                             max(60, timeout - (time.time() - t0)))
+        out = p.stdout
+        # the summary of the module itself is the last one (modules it extends are summarised before it)
+        last_ok, last_bad = None, None
+        for m in _RE_OBL.finditer(out):
+            last_ok = m
+        for m in _RE_OBLF.finditer(out):
+            last_bad = m
+        if last_bad and attempt < retries:
+            attempt += 1
+            log("[tlapm] %s: %s obligations failed, retrying with longer time limits (%d)" % (name, last_bad.group(1), attempt))
+            continue
+        break
     wall = round(time.time() - t0, 2)
-    r = {"tool": "tlapm", "module": name, "wall_s": wall, "out": out, "cmd": " ".join(cmd)}
-    # the summary of the module itself is the last one (modules it extends are summarised before it)
-    last_ok, last_bad = None, None
-    for m in _RE_OBL.finditer(out):
-        last_ok = m
-    for m in _RE_OBLF.finditer(out):
-        last_bad = m
+    r = {"tool": "tlapm", "module": name, "wall_s": wall, "out": out, "cmd": " ".join(cmd), "attempts": attempt + 1}
     if last_bad:
         r.update(result="failed", failed=int(last_bad.group(1)), obligations=int(last_bad.group(2)),
                  failed_at=re.findall(r'File "\./%s\.tla", (line \d+, characters \d+-\d+)' % re.escape(name), out))
